@@ -353,6 +353,90 @@ def c06_function_overloads(r1: int, r2: int, r3: int) -> bool:
     return ok
 
 
+ALG_PRELUDE = "class Cls { Cls(); }; namespace a { class Cls { Cls(); }; namespace b { class Cls { Cls(); }; } }\n"
+
+
+def alg_expect(ty, name, idx):
+    """(declaration of the local, call argument, isa class) the MEX routine / call site must have for parameter `name` of type ty"""
+    from harness.shapes import cpp as ref_cpp
+    const, nss, tname, args, suf = ty
+    bare = ref_cpp((False, nss, tname, tuple((False, a[1], a[2], a[3], "") for a in args), "")).replace(", ", ",")
+    mat = bare.replace("::", ".").replace("<", "").replace(">", "").replace(",", "")
+    if not nss and not args and tname in ("int", "unsigned char"):
+        return "%s %s = unwrap< %s >(in[%d]);" % (tname, name, tname, idx), name, {"int": "numeric", "unsigned char": "unsigned char"}[tname]
+    pn = "ptr_" + re.sub(r"[^A-Za-z0-9_]", "", bare)
+    if args:      # the handle / MATLAB class name of a templated type drops the namespaces of its arguments
+        inner = "".join(a[2] for a in args)
+        pn = "ptr_" + "".join(nss) + tname + inner
+        mat = ".".join(nss + (tname + inner,))
+    if suf == "@":
+        return '%s* %s = unwrap_ptr< %s >(in[%d], "%s");' % (bare, name, bare, idx, pn), name, mat
+    if suf == "&":
+        return '%s& %s = *unwrap_shared_ptr< %s >(in[%d], "%s");' % (bare, name, bare, idx, pn), name, mat
+    decl = 'std::shared_ptr<%s> %s = unwrap_shared_ptr< %s >(in[%d], "%s");' % (bare, name, bare, idx, pn)
+    return decl, (name if suf == "*" else "*" + name), mat
+
+
+def c06_all_types(kind: int, r: int, a: int, role: int) -> bool:
+    """
+    Every type of the small algebra of C01 that the MATLAB dialect covers (int / unsigned char / class names in three
+    namespaces x 8 const-*-@-& combinations; templated roots with unqualified arguments) as the first parameter of a
+    constructor / method / static method / free function: the call-site guard tests the MATLAB class of the declared
+    type and the MEX routine unwraps it with the family the passing mode requires (value and & : shared pointer,
+    dereferenced; * : shared pointer; @ : raw pointer; basic types by value) and forwards it in declaration order.
+    pre: 0 <= kind <= 1 and 0 <= r < 48 and 0 <= a < 128 and 0 <= role <= 3
+    pre: kind == 0 or r % (2 if THOROUGH else 8) == a % (2 if THOROUGH else 8)
+    post: _
+    """
+    from harness import c01_tree as A
+    from harness.shapes import itext
+    kind, a = pick(kind, 0, 2), pick(a, 0, A.NA_LEAF)
+    if kind:
+        r = pick(r, 0, A.NA_ROOT)
+    role = pick(role, 0, 4) if THOROUGH else (a + r) % 4
+    ok = True
+    with concrete():
+        leaf = A.a_leaf(a)
+        ty = leaf if kind == 0 else A.a_root(r, [(False, leaf[1], leaf[2], (), ""), A.a_leaf((a * 5 + r) % A.NA_LEAF)[:4] + ("",)][:1 + (a + r) % 2])
+        if kind:
+            ty = (ty[0], ty[1], ty[2], tuple((False, x[1], x[2], (), "") for x in ty[3]), ty[4])     # unqualified arguments (see the listed known finding)
+        flat = [ty] + list(ty[3])
+        in_dialect = A.a_allowed(ty, "argument") and all(t[2] != "This" and "T" not in t[1] for t in flat) \
+            and not any(t[2] in ("int", "unsigned char") and t[4] in ("*", "@") for t in flat) and not (ty[2] in ("int", "unsigned char") and ty[4] == "&" and not ty[0])
+        if in_dialect:
+            sig = "%s x, double y" % itext(ty)
+            decl = ["class K { K(%s); };" % sig, "class K { K(); void doIt(%s) const; };" % sig, "class K { K(); static void doIt(%s); };" % sig, "void doIt(%s);" % sig][role]
+            text = ALG_PRELUDE + "namespace top { " + decl + " }"
+            problems = []
+            try:
+                files, cpp, _w = pipe.matlab(text)
+            except Exception as ex:
+                files, cpp = {}, ""
+                problems.append("raised %r" % ex)
+            off = 1 if role == 1 else 0
+            want_decl, want_arg, want_isa = alg_expect(ty, "x", off)
+            routines = dict(readers.mex_routines(cpp))
+            key = "_constructor_" if role == 0 else "doIt_"
+            body = next((b for n, b in routines.items() if key in n and (role == 3 or n.startswith("top")) and " x = " in b), "")
+            if not problems:
+                if want_decl not in body:
+                    got = [l.strip() for l in body.split("\n") if re.search(r"\bx = ", l)]
+                    problems.append("routine unwraps %r, the declared type needs %r" % (got, want_decl))
+                callee = ["new top::K(", "obj->doIt(", "top::K::doIt(", "top::doIt("][role]
+                if (callee + want_arg + ",y)") not in body:
+                    got = re.search(re.escape(callee) + r"[^;]*", body)
+                    problems.append("call %r, expected %r" % (got.group(0) if got else None, callee + want_arg + ",y)"))
+                m = files.get("+top/doIt.m" if role == 3 else "+top/K.m", "")
+                # (the MATLAB class name of a templated type is not specified anywhere: guard judged for untemplated types only)
+                if not ty[3] and ("isa(varargin{1},'%s') && isa(varargin{2},'double')" % want_isa) not in m:
+                    got = re.findall(r"isa\(varargin\{1\},'[^']*'\)", m)
+                    problems.append("guard %r, expected class %r" % (got[-1:] , want_isa))
+            if problems:
+                ok = _fail(text=text, problems=problems)
+    reached({"kind": kind, "a": a, "r": r, "role": role} if not ok else None)
+    return ok
+
+
 def c06_kf_function_enum(which: int) -> bool:
     """
     Witness replay for known finding C06-foreign-scope-enum (free function taking a class-scoped enum).
@@ -380,6 +464,8 @@ def conds(tier):
         xh.Cond(M, "c06_function", t(420, 3000), path_timeout=60, kind=sb, examples=["n=2, k=1, t0=11, t1=0, ret=8"], bounds="free functions: as methods"),
         xh.Cond(M, "c06_function_overloads", t(300, 1800), path_timeout=60, kind=sb, examples=["r1=0, r2=7, r3=1", "r1=7, r2=0, r3=5"],
                 bounds="3 overloads x %d return shapes each%s" % (NR, "" if not q else " (third derived)")),
+        xh.Cond(M, "c06_all_types", t(420, 2400), path_timeout=60, kind=sb, examples=["kind=0, r=0, a=43, role=1", "kind=0, r=0, a=3, role=0", "kind=1, r=11, a=35, role=2", "kind=1, r=27, a=43, role=3"],
+                bounds="every in-dialect leaf of the C01 type algebra and %s templated roots over unqualified leaves, as first parameter (%s)" % ("every second (root, leaf) pair of the" if not q else "every eighth (root, leaf) pair of the", "4 roles" if not q else "role derived")),
         xh.Cond(M, "c06_kf_function_enum", 60, path_timeout=60, kind=sb, bounds="witness of a listed known finding", needs_confirm=False),
         xh.Cond(M, "c06_returns", t(200, 900), path_timeout=60, kind=sb, examples=["role=1, ret=7, n=1"], bounds="3 roles x %d return shapes x 0-1 parameters" % NR),
     ]
